@@ -64,6 +64,11 @@ def configs(tier, seed):
     for dtype, C, size, cs, enc, block in ident:
         out.append(dict(harness="identity", dtype=dtype, C=C, size=list(size), cs=list(cs), encoding=enc, block=block,
                         cost=4 if enc != "raw" else 1, wall=900))
+    # chunks handed over as big-endian arrays of the dataset's type (what nibabel yields for big-endian files)
+    for dtype, enc, block in (("uint16", "raw", None), ("uint64", "raw", None), ("float32", "raw", None),
+                              ("uint32", "compressed_segmentation", (2, 2, 1))):
+        out.append(dict(harness="identity", dtype=dtype, C=1, size=[2, 2, 1], cs=[2, 2, 1], encoding=enc, block=block,
+                        big_endian=True, cost=2, wall=900))
     for dt_chunk, dt_data in (("uint16", "uint8"), ("int64", "uint64"), ("float32", "uint32"), ("uint64", "uint32"), ("float64", "float32")):
         out.append(dict(harness="unsafe", dt_chunk=dt_chunk, dt_data=dt_data, cost=1))
     for k in ((1, 2, 3) if tier == "quick" else (1, 2, 3, 4)):
@@ -205,7 +210,11 @@ def H_identity(ctx, cfg):
         chunk = SArray.fresh(shape, dtype, f"c{i}")
         allin += [x.__zexpr__() for x in chunk.a.ravel()]
         written[cc] = chunk
-        io.write_chunk(chunk, "k0", cc)
+        if cfg.get("big_endian"):
+            arg = SArray(chunk.a, real_np.dtype(dtype).newbyteorder(">"))       # same values, big-endian memory layout
+        else:
+            arg = chunk
+        io.write_chunk(arg, "k0", cc)
     ctx.input("voxels", allin)
     ctx.sample(dict(chunks=len(written), voxels=len(allin), encoding=cfg["encoding"]))
     io2 = pio.PrecomputedIO(info, acc)
@@ -323,7 +332,7 @@ def replay(cfg, cex):
                 chunk = real_np.array(raw, dtype=real_np.uint64).astype(dtype).reshape(shape)
             written[cc] = chunk
             try:
-                io.write_chunk(chunk, "k0", cc)
+                io.write_chunk(chunk.astype(chunk.dtype.newbyteorder(">")) if cfg.get("big_endian") else chunk, "k0", cc)
             except Exception as e:
                 return True, f"write_chunk raised {type(e).__name__}: {e}"
         io2 = pio.PrecomputedIO(info, acc)
